@@ -4,7 +4,8 @@
    three-valued (T / F / U = "the documentation does not decide") evaluator of the documented meaning
    next to a transcription of the code's evaluation with its short-cuts; invariants: the transcription
    agrees with the documented meaning wherever that is decided, outside the named deviation classes
-   (D_FoldWidth, D_ContainerNul, D_EmptyContainerLen, D_AndRegexp); and/or commute, value and condition
+   (D_FoldWidth, D_ContainerNul, D_EmptyContainerLen; the former D_AndRegexp = D11 is repaired and survives
+   only as a spec mutant that TLC must reject); and/or commute, value and condition
    order are irrelevant, match_invert is the negation.  Every rule is exported with the expected value
    for every event of its part.
 2. Every exported rule is rendered to the configuration JSON a user would write and built through the
@@ -249,12 +250,9 @@ def build_cases(ctx, doif_printed, mf_printed):
         sets[key] = [e for e, _ in evs]
         abs_events[key] = None
         exp = [x for _, x in evs]
-        dev = ""
+        dev = ""                      # the README tables are demanded literally (D11 is repaired)
         if kind == "mf":
             cfgobj = dict(cfgobj, type="verif_c14")
-            has_re = any(isinstance(p, str) and p.startswith("/") for p in cfgobj["match_fields"].values())
-            if has_re and cfgobj.get("match_mode", "and") in ("and", "and_prefix"):
-                dev = "and_regexp"
         add_rule(kind, key, cfgobj, "doc", None, exp, ["?"] * len(exp), [dev] * len(exp), kind == "mf" or cfgobj["op"] not in ("and", "or", "not"))
     return sets, abs_events, rules
 
@@ -391,8 +389,6 @@ def compare(ctx, sets, abs_events, rules, fd, pl, e2e):
                     inv = rec.get("invert", False)
                     rec["want_raw"] = want if not inv else ("F" if want == "T" else "T")
                     rec["got_raw"] = g != inv
-                    if model == "?":          # README vector: the class is pinned by mode + regexp + direction
-                        rec["as_modelled"] = rec["dev_class"] == "and_regexp" and rec["got_raw"] is False
                 recs.append(rec)
             elif model in ("T", "F") and g != (model == "T"):
                 drift += 1
@@ -540,7 +536,10 @@ def run(ctx):
     if tier == "thorough":
         # residual configurations: all deviation switches off; the invariants must hold with no excuse
         ctx.tlc_expect_ok("DoIf", "DoIf_fixed.cfg", count=False, timeout=900, deadlock=False)
-        ctx.tlc_expect_ok("MatchFields", "MatchFields_fixed.cfg", count=False, timeout=600, deadlock=False)
+    # spec mutant: the repaired defect D11 switched back on must be rejected by TLC (ImplMatchesDecl)
+    mu = ctx.tlc("MatchFields", "MatchFields_mutant_d11.cfg", timeout=600, deadlock=False, name="MatchFields/mutant_d11")
+    if mu.ok or mu.violated != "ImplMatchesDecl":
+        raise vlib.Infra("spec mutant D11 (and-mode regexp condition asked for a value) was not rejected by TLC: %s" % mu.violated)
     sets, abs_events, rules = build_cases(ctx, d.printed, m.printed)
     ndoif = sum(1 for r in rules if r.kind == "doif")
     nmf = len(rules) - ndoif
